@@ -15,6 +15,7 @@ Not(a) == [t |-> "not", a |-> a]
 \* the public context (the harness builds the same Go values)
 Ctx == [l0 |-> L(<<>>), l1 |-> L(<<I(7)>>), l3 |-> L(<<I(3), I(1), I(2)>>), ls |-> L(<<S(<<"b">>), S(<<"a">>), S(<<"b">>)>>),
         le |-> L(<<S(<<"a">>), S(<<>>), S(<<"a">>), S(<<"b">>), S(<<"b">>), S(<<>>), S(<<>>), S(<<"b">>)>>),   \* repeats, also across empty items
+        tyi |-> L(<<I(3), I(1), I(2)>>), tys |-> L(<<S(<<"b">>), S(<<"c">>), S(<<"a">>)>>),       \* Go slices with an element type of their own ([]int, []string)
         s0 |-> S(<<>>), s2 |-> S(<<"b", "a">>), su |-> S(<<"CJK", "EACUTE", "z">>),
         m2 |-> M(<<P(S(<<"a">>), I(1)), P(S(<<"b">>), I(2))>>), m0 |-> M(<<>>),
         z0 |-> S(<<"0">>), n0 |-> I(0), n1 |-> I(1), n2 |-> I(2), bt |-> B(TRUE), bf |-> B(FALSE)]
@@ -27,7 +28,8 @@ Conds == {CondSeq[i] : i \in DOMAIN CondSeq}
 IterSeq == << [e |-> Var(<<"l0">>), kv |-> FALSE], [e |-> Var(<<"l1">>), kv |-> FALSE], [e |-> Var(<<"l3">>), kv |-> FALSE],
            [e |-> Var(<<"ls">>), kv |-> FALSE], [e |-> Var(<<"s2">>), kv |-> FALSE], [e |-> Var(<<"s0">>), kv |-> FALSE], [e |-> Var(<<"su">>), kv |-> FALSE],
            [e |-> Var(<<"n1">>), kv |-> FALSE], [e |-> Var(<<"nope">>), kv |-> FALSE],
-           [e |-> Var(<<"m2">>), kv |-> TRUE], [e |-> Var(<<"m0">>), kv |-> TRUE], [e |-> Var(<<"le">>), kv |-> FALSE] >>
+           [e |-> Var(<<"m2">>), kv |-> TRUE], [e |-> Var(<<"m0">>), kv |-> TRUE], [e |-> Var(<<"le">>), kv |-> FALSE],
+           [e |-> Var(<<"tyi">>), kv |-> FALSE], [e |-> Var(<<"tys">>), kv |-> FALSE] >>
 Iters == {IterSeq[i] : i \in DOMAIN IterSeq}
 
 LeafSeq == << T(<<"t">>), Out(Var(<<"x">>)), Out(Var(<<"forloop", "Counter">>)), Out(Var(<<"forloop", "Counter0">>)),
